@@ -106,6 +106,9 @@ def run_shard(prop_id, sub_name, tier, seed, shard, n_examples, budget_s, shrink
         import numpy as np
 
         np.seterr(all="ignore")
+        import logging
+
+        logging.getLogger("matplotlib").setLevel(logging.ERROR)
         sys.stdout = open(os.devnull, "w")  # kafe2 prints warnings with print(); results travel through the return value
         _check_repo()
         scratch = os.path.join(HOME, ".scratch", f"{prop_id}-{sub_name}-{shard}-{os.getpid()}")
